@@ -43,6 +43,13 @@ Definition lhq_ok (c : nat * nat * list (list Q) * list (list Q) *
   forallb (fun r => let '(ip, mi, cap, ne, conv, ni, used) := r in
              let '(ne', conv', ni', used') := lemke_howson piv_TOL_PIV piv_TOL_RATIO_DIFF m n A Bt ip mi cap in
              pair_close (1 # 1000000000) ne' ne && Bool.eqb conv' conv && Z.eqb ni' ni && Nat.eqb used' used) runs.
+(* certificate for the theorem instance (tolerance 0, exact arithmetic): every converged run ends in an exact equilibrium *)
+Definition lhcert_ok (c : nat * nat * list (list Q) * list (list Q) *
+                       list (nat * Z * option Z * (list Q * list Q) * bool * Z * nat)) : bool :=
+  let '(m, n, A, Bt, runs) := c in
+  forallb (fun r => let '(ip, mi, cap, ne, conv, ni, used) := r in
+             let '(ne', conv', ni', used') := lemke_howson 0 0 m n A Bt ip mi cap in
+             implb conv' (nash_checkb m n A Bt (fst ne') (snd ne'))) runs.
 Definition Ns_eqb := list_eqb N.eqb.
 Definition ve_ok (c : nat * nat * list (list N) * list (list N) * list N * list N *
                       list (list float) * list (list float) * float * float * list (list float * list float)) : bool :=
@@ -214,12 +221,13 @@ def run(ctx):
     shapes = [(m, n) for m in range(1, smax + 1) for n in range(1, smax + 1)]
     kinds = ["int", "generic", "struct", "zero_sum"]
     reps = 3 if thorough else 1
+    kinds_rep = {"generic": 2} if not thorough else {}
     NTOL = Fraction(1, 10**9)
 
     se_cases, se_meta, lhf_cases, lhq_cases, lh_meta, ve_cases, ve_meta = [], [], [], [], [], [], []
     for (m, n) in shapes:
         for kind in kinds:
-            for rep in range(reps if (m, n) != (1, 1) else 1):
+            for rep in range(max(reps, kinds_rep.get(kind, 0)) if (m, n) != (1, 1) else 1):
                 if not thorough and kind in ("struct", "zero_sum") and (m + n) % 2 == 1 and min(m, n) > 1:
                     continue
                 A, B = gen_bimatrix(rng, m, n, kind)
@@ -244,7 +252,11 @@ def run(ctx):
                     return True
 
                 # ---- support enumeration
-                se = support_enumeration(g)
+                try:
+                    se = support_enumeration(g)
+                except Exception as e:
+                    ctx.fail("raises", "support_enumeration raised %r" % (e,), dict(desc, solver="support_enumeration"), repr(e), None)
+                    continue
                 ctx.case(("se",) + ident, nontrivial=nontriv, sample={"support_enumeration": desc, "impl": [[a.tolist(), b.tolist()] for a, b in se]})
                 ctx.count("se:count=%d" % min(len(se), 9))
                 for ne in se:
@@ -285,7 +297,16 @@ def run(ctx):
                     if rng.random() < 0.3:
                         settings.append((rng.choice([1, 2, 3, 5]), rng.choice([None, 1, 2])))
                     for mi, cap in settings:
-                        ne, res = lemke_howson(g, init_pivot=ip, max_iter=mi, capping=cap, full_output=True)
+                        try:
+                            ne, res = lemke_howson(g, init_pivot=ip, max_iter=mi, capping=cap, full_output=True)
+                        except Exception as e:
+                            ctx.fail("raises", "lemke_howson raised %r on a valid game / initial pivot" % (e,), dict(desc, init_pivot=ip, capping=cap, max_iter=mi), repr(e), None)
+                            continue
+                        if not (0 <= int(res.init) < m + n) or (cap is not None and mi == 10**6 and (int(res.init) - ip) % (m + n) >= m + n):
+                            ctx.fail("lh_init", "the initial pivot reported as used is not a label 0..m+n-1", dict(desc, init_pivot=ip, capping=cap), int(res.init), "0 <= init < %d" % (m + n))
+                        if not (np.all(np.isfinite(ne[0])) and np.all(np.isfinite(ne[1]))):
+                            ctx.fail("lh_not_finite", "lemke_howson returned a non-finite profile", dict(desc, init_pivot=ip, capping=cap, max_iter=mi), [ne[0].tolist(), ne[1].tolist()], None)
+                            continue
                         ctx.case(("lh",) + ident + (ip, mi, cap), nontrivial=nontriv,
                                  sample={"lemke_howson": dict(desc, init_pivot=ip, capping=cap), "impl": [ne[0].tolist(), ne[1].tolist()], "converged": bool(res.converged)})
                         ctx.count("lh:converged=%s" % bool(res.converged))
@@ -325,6 +346,10 @@ def run(ctx):
     ctx.count("lh:games where the exact-Q path differs from the float path (degenerate ties)", len(badq))
     if badq:
         ctx.notes.append("exact-Q Lemke-Howson path differs from the implementation on: %s" % [jsonable(lh_meta[i]) for i in badq[:3]])
+    bad = ctx.coq_check("lemke_howson_exact_certificate", IMPORTS, "nat * nat * list (list Q) * list (list Q) * list (nat * Z * option Z * (list Q * list Q) * bool * Z * nat)",
+                        "lhcert_ok", lhq_cases, chunk=max(1, len(lhq_cases) // 14), preamble=PRE)
+    for i in bad:
+        ctx.mismatch("C05.Model.lemke_howson (exact Q instance, tolerance 0): a converged run does not end in an exact Nash equilibrium (nash_checkb)", lh_meta[i])
     bad = ctx.coq_check("vertex_enumeration", IMPORTS, "nat * nat * list (list N) * list (list N) * list N * list N * list (list float) * list (list float) * float * float * list (list float * list float)",
                         "ve_ok", ve_cases, chunk=max(1, len(ve_cases) // 12), preamble=PRE)
     for i in bad:
@@ -338,8 +363,14 @@ def run(ctx):
     for nums in nshapes:
         N = len(nums)
         for rep in range(4 if thorough else 2):
-            kind = rng.choice(["int3", "int2", "coord"])
-            if kind == "coord":     # common-interest game: many pure equilibria
+            kind = rng.choice(["int3", "int2", "coord", "cyclic"])
+            if kind == "cyclic" and (N != 2 or nums[0] != nums[1]):
+                kind = "int3"
+            if kind == "cyclic":    # matching-pennies / rock-paper-scissors structure: no pure equilibrium
+                k = nums[0]
+                data = np.array([[[1 if i == j else -1, -1 if i == j else 1] for j in range(k)] for i in range(k)])
+                data = data[:, rng.sample(range(k), k), :]
+            elif kind == "coord":     # common-interest game: many pure equilibria
                 base = np.array([rng.randrange(0, 3) for _ in range(int(np.prod(nums)))]).reshape(nums)
                 data = np.stack([base] * N, axis=-1)
             else:
